@@ -37,6 +37,10 @@ type C11Conn struct {
 	// 101: an exchange like any other - the answer is delivered, then the connection is closed; no tunnel is set up
 	// while the proxy shuts down
 	Upgrade bool `json:"upgrade,omitempty"`
+	// SlowTail (phase tunnel, bare mode): once the actions are over - shutdown has begun long ago - the client sends one
+	// more request through the tunnel and shuts down its sending side; the origin takes 1.4 s to say all it has to say.
+	// The tunnel is in-flight work: half of it being finished does not make the other half expendable
+	SlowTail bool `json:"slow_tail,omitempty"`
 }
 
 type C11Act struct {
@@ -70,6 +74,9 @@ func genC11(t *rapid.T) C11Case {
 			BodyLen: rapid.SampledFrom([]int{0, 10, 5000, 70000}).Draw(t, "bodylen")})
 		if c.Conns[i].Phase == "at-origin" && rapid.IntRange(0, 2).Draw(t, "upgrade") == 0 {
 			c.Conns[i].Upgrade, c.Conns[i].BodyLen = true, 0
+		}
+		if c.Conns[i].Phase == "tunnel" && c.Mode == "bare" && rapid.Bool().Draw(t, "slowtail") {
+			c.Conns[i].SlowTail = true
 		}
 	}
 	if c.Mode == "forwarder" && rapid.IntRange(0, 3).Draw(t, "nolimit") == 0 {
@@ -454,6 +461,40 @@ func runC11once(c C11Case) (fails []vstat.Failure) {
 			cl.releasedAt = time.Now()
 			close(cl.release)
 		}
+	}
+
+	// ---- a tunnel one half of which finishes during the drain still carries the other half
+	for i, cl := range clients {
+		if !cl.spec.SlowTail || cl.spec.Phase != "tunnel" || cl.gone || bare == nil {
+			continue
+		}
+		vid := cl.vid + "-tail"
+		tail := Payload(uint32(id)*11+uint32(i), 3000)
+		raw := append([]byte(fmt.Sprintf("HTTP/1.1 200 OK\r\nX-Rid: %s\r\nContent-Length: %d\r\n\r\n", vid, len(tail))), tail...)
+		scripts.Store(vid, &OriginScript{Parts: [][]byte{raw[:900], raw[900:1800], raw[1800:]}, CloseAfter: true, Gate: func(int) bool {
+			time.Sleep(700 * time.Millisecond)
+			return true
+		}})
+		defer scripts.Delete(vid)
+		fmt.Fprintf(cl.conn, "GET /tail HTTP/1.1\r\nHost: %s\r\nX-Vid: %s\r\n\r\n", origin.Addr, vid)
+		cl.conn.CloseWrite()
+		cl.conn.SetReadDeadline(time.Now().Add(6 * time.Second))
+		m, err := ReadResponse(cl.br, "GET")
+		cl.conn.SetReadDeadline(time.Time{})
+		st.Class("tunnel-half-closed-during-the-drain-with-a-slow-other-half")
+		if err != nil || m.Status != 200 || !bytes.Equal(m.Body, tail) {
+			got := 0
+			if m != nil {
+				got = len(m.Body)
+			}
+			if why := lag.starved(); why != "" {
+				st.Inconclusive()
+			} else {
+				fails = append(fails, vstat.Failf(key("tunnel-cut"), "connection %d: the client shut down its sending side of an open tunnel during the drain; of the %d octets the origin then sent over 1.4 s it received %d (%v)", i, len(tail), got, err))
+			}
+		}
+		cl.gone = true
+		cl.conn.Close()
 	}
 
 	// ---- in-flight exchanges complete
